@@ -44,6 +44,8 @@ pub fn edge_tok(t: &str) -> f64 {
         "two" => 2.0,
         "pinf" => f64::INFINITY,
         "nan" => f64::NAN,
+        "one_up" => f64::from_bits(1.0f64.to_bits() + 1),
+        "tiny" => f64::from_bits(1),
         _ => panic!("edge token {t}"),
     }
 }
@@ -202,7 +204,70 @@ fn do_find<H: HistT>(line: &Value, want: &HWant, rep: &mut Report) {
 }
 
 // ---------------------------------------------------------------------------------- cw (C12)
+/// C06 on a histogram with arbitrary (non-lattice) edges: every edge and its floating-point
+/// neighbours must be found in the bin the definition lower_i <= x < upper_i gives (evaluated by
+/// a linear scan of the histogram's own edges), and found at all iff range_min <= x < range_max.
+fn check_find_on_own_edges<H: HistT>(h: &H, line: &Value, label: &str, rep: &mut Report) {
+    let r = h.ranges();
+    let mut samples: Vec<f64> = Vec::new();
+    for &e in &r {
+        if e.is_finite() {
+            samples.push(e);
+            samples.push(f64::from_bits(if e > 0.0 { e.to_bits() + 1 } else { e.to_bits().saturating_sub(1) }));
+            samples.push(f64::from_bits(if e > 0.0 { e.to_bits().saturating_sub(1) } else { e.to_bits() + 1 }));
+        }
+    }
+    for x in samples {
+        if x.is_nan() {
+            continue;
+        }
+        rep.evaluations += 1;
+        let bins: Vec<usize> = (0..H::LEN).filter(|&i| r[i] <= x && x < r[i + 1]).collect();
+        let in_range = h.range_min() <= x && x < h.range_max();
+        let got = catch_unwind(AssertUnwindSafe(|| h.find(x)));
+        let got = match got {
+            Ok(g) => g,
+            Err(_) => {
+                viol(rep, "C06", H::NAME, line, "find", format!("{label}: find({:e}) panicked", x));
+                return;
+            }
+        };
+        if bins.len() > 1 {
+            viol(rep, "C06", H::NAME, line, "find", format!("{label}: sample {:e} lies in {} bins of a successfully built histogram (edges {:?})", x, bins.len(), r));
+            return;
+        }
+        let want_bin = bins.first().copied();
+        if got.ok() != want_bin || (want_bin.is_some() != in_range) {
+            viol(rep, "C06", H::NAME, line, "find", format!("{label}: find({:e}) = {:?} but the containing bin is {:?} (range_min <= x < range_max: {}); edges {:?}", x, got, want_bin, in_range, r));
+            return;
+        }
+    }
+}
+
 fn do_cw<H: HistT>(line: &Value, want: &HWant, rep: &mut Report) {
+    if want.prop == "C06" {
+        // histograms built by with_const_width, ordinary and only a few ulps wide
+        let a = line["a"].as_i64().unwrap() as f64;
+        let b = line["b"].as_i64().unwrap() as f64;
+        for k in [-60, -3, 0, 20] {
+            rep.replays += 1;
+            let h = H::with_const_width(a * p2(k), b * p2(k));
+            check_find_on_own_edges(&h, line, "with_const_width", rep);
+            for base in [a, b, 7.5] {
+                let start = base * p2(k);
+                if start == 0.0 {
+                    continue;
+                }
+                for width_ulps in [1u64, 2, 3, 7, 39, 1000] {
+                    let end = if start > 0.0 { f64::from_bits(start.to_bits() + width_ulps) } else { f64::from_bits(start.to_bits() - width_ulps) };
+                    rep.replays += 1;
+                    let h = H::with_const_width(start, end);
+                    check_find_on_own_edges(&h, line, "with_const_width on a range a few ulps wide", rep);
+                }
+            }
+        }
+        return;
+    }
     if want.prop != "C12" {
         return;
     }
@@ -235,6 +300,39 @@ fn do_cw<H: HistT>(line: &Value, want: &HWant, rep: &mut Report) {
         }
         if h.bins().iter().any(|&c| c != 0) {
             viol(rep, "C12", H::NAME, line, "with_const_width", "non-zero counts in a new histogram".into());
+        }
+    }
+    // ranges only a few ulps wide ("all finite start < end"): the edges must still be
+    // non-decreasing, start exactly first, and every edge within a few ulps of the exact one
+    for k in [-40, 0, 3, 60] {
+        for base in [a, b, a + 0.5, 7.5] {
+            let start = base * p2(k);
+            if start == 0.0 || !start.is_finite() {
+                continue;
+            }
+            for width_ulps in [1u64, 2, 3, 5, 8, 13, 39, 1000] {
+                let end = if start > 0.0 { f64::from_bits(start.to_bits() + width_ulps) } else { f64::from_bits(start.to_bits() - width_ulps) };
+                rep.replays += 1;
+                let h = H::with_const_width(start, end);
+                let r = h.ranges();
+                let ulp = (f64::from_bits(start.abs().max(end.abs()).to_bits() + 1) - start.abs().max(end.abs())).abs();
+                rep.evaluations += (r.len() + 2) as u64;
+                if r.len() != H::LEN + 1 || r[0] != start {
+                    viol(rep, "C12", H::NAME, line, "with_const_width", format!("narrow range: first edge {:e} is not start {:e}", r[0], start));
+                    continue;
+                }
+                if !r.windows(2).all(|w| w[0] <= w[1]) {
+                    viol(rep, "C12", H::NAME, line, "with_const_width", format!("narrow range [{:e}, +{} ulps]: edges not non-decreasing: {:?}", start, width_ulps, r.iter().map(|x| x.to_bits()).collect::<Vec<_>>()));
+                    continue;
+                }
+                for (i, &e) in r.iter().enumerate() {
+                    let reference = start + (end - start) * (i as f64 / H::LEN as f64);
+                    if (e - reference).abs() > 5.0 * ulp {
+                        viol(rep, "C12", H::NAME, line, "with_const_width", format!("narrow range [{:e}, +{} ulps]: edge {} = {:e}, more than 5 ulps from {:e}", start, width_ulps, i, e, reference));
+                        break;
+                    }
+                }
+            }
         }
     }
 }
@@ -487,6 +585,7 @@ fn do_hist<H: HistT>(line: &Value, want: &HWant, rep: &mut Report) {
             if !good || items2.len() != items.len() || items2.iter().zip(&items).any(|(x, y)| x.1 != y.1 || x.0 .0.to_bits() != y.0 .0.to_bits() || x.0 .1.to_bits() != y.0 .1.to_bits()) {
                 viol(rep, "C13", H::NAME, line, "iter", format!("iteration yields {:?}; expected edges {:?} counts {:?}", items, sedges, sbins));
             }
+            let exact_views = spec.get("exactviews").and_then(|x| x.as_bool()).unwrap_or(true);
             let views: [(&str, Vec<f64>, &Value, f64); 4] = [
                 ("widths", h.widths(), &spec["widths"], 0.0),
                 ("centers", h.centers(), &spec["centers"], 0.0),
@@ -494,6 +593,9 @@ fn do_hist<H: HistT>(line: &Value, want: &HWant, rep: &mut Report) {
                 ("variances", h.variances(), &spec["vars"], 4.0 * 2.0 * U * (total as f64) / 4.0),
             ];
             for (name, got, exp, tol) in views.iter() {
+                if !exact_views && *name != "variances" {
+                    continue; // edge values one ulp off the lattice: widths / centres are not exported exactly
+                }
                 let exp = exp.as_array().unwrap();
                 if got.len() != H::LEN {
                     viol(rep, "C13", H::NAME, line, name, format!("{name} yields {} items", got.len()));
